@@ -96,6 +96,43 @@ fn main() {
             }
             0
         }
+        "compose-min" => {
+            // shrink a counterexample to "staged == all at once": args: file with {"r1":[..],"r2":[..],"word":".."}
+            let v: serde_json::Value = serde_json::from_str(&std::fs::read_to_string(&args[2]).unwrap()).unwrap();
+            let mut r1: Vec<String> = serde_json::from_value(v["r1"].clone()).unwrap();
+            let mut r2: Vec<String> = serde_json::from_value(v["r2"].clone()).unwrap();
+            let word: String = v["word"].as_str().unwrap().to_string();
+            let mut o = oracle::Oracle::new(5);
+            let mut differs = |r1: &Vec<String>, r2: &Vec<String>, o: &mut oracle::Oracle| -> Option<(String, String, String)> {
+                let g = |r: &Vec<String>| vec![instance::Group::anon(r.clone())];
+                let mut all = r1.clone();
+                all.extend(r2.iter().cloned());
+                let once = match o.run(&oracle::Req { rules: g(&all), words: vec![word.clone()], into: vec![], from: vec![] }) { oracle::Ans::Ok(x) => x[0].clone(), _ => return None };
+                let mid = match o.run(&oracle::Req { rules: g(r1), words: vec![word.clone()], into: vec![], from: vec![] }) { oracle::Ans::Ok(x) => x[0].clone(), _ => return None };
+                let fp = match o.run(&oracle::Req { rules: vec![], words: vec![mid.clone()], into: vec![], from: vec![] }) { oracle::Ans::Ok(x) => x[0].clone(), _ => return None };
+                if fp != mid { return None }
+                let staged = match o.run(&oracle::Req { rules: g(r2), words: vec![mid.clone()], into: vec![], from: vec![] }) { oracle::Ans::Ok(x) => x[0].clone(), _ => return None };
+                if staged != once { Some((mid, staged, once)) } else { None }
+            };
+            if differs(&r1, &r2, &mut o).is_none() { println!("no difference"); std::process::exit(1); }
+            loop {
+                let mut progress = false;
+                for which in 0..2 {
+                    let mut i = 0;
+                    loop {
+                        let len = if which == 0 { r1.len() } else { r2.len() };
+                        if i >= len { break }
+                        let (mut c1, mut c2) = (r1.clone(), r2.clone());
+                        if which == 0 { c1.remove(i); } else { c2.remove(i); }
+                        if differs(&c1, &c2, &mut o).is_some() { r1 = c1; r2 = c2; progress = true; } else { i += 1; }
+                    }
+                }
+                if !progress { break }
+            }
+            let (mid, staged, once) = differs(&r1, &r2, &mut o).unwrap();
+            println!("word {word:?}\nr1 {r1:?}\nr2 {r2:?}\nintermediate {mid:?} (re-reads as itself)\nstaged {staged:?}\nall at once {once:?}");
+            0
+        }
         "wordstats" => {
             let d = gen::Data::load();
             let mut o = oracle::Oracle::new(5);
